@@ -78,7 +78,8 @@ class C09(object):
                          'offgrid.judged', 'nonzero_initial_stocks.judged', 'PAIR.judged', 'book_exogenous_overwritten.cases',
                          'parameters_as_exogenous_series.cases', 'solver_object_shared_with_an_earlier_model.cases',
                          'PC.initial_bills_explicitly_zero.cases',
-                         'PC.initial_bills_left_to_the_portfolio_rule.cases')
+                         'PC.initial_bills_left_to_the_portfolio_rule.cases',
+                         'solved_again_after_a_failure_at_a_later_period.cases')
 
     def n_cases(self, tier):
         return 60 if tier == 'quick' else 6000
@@ -114,7 +115,8 @@ class C09(object):
                 'B0_zero': which == 'PC' and (idx // 7) % 4 == 1,
                 # PC started from household wealth and disposable income only: the initial bill holding is what the
                 # portfolio rule gives at k=0 (the solver derives it from the declared values)
-                'B0_derived': which == 'PC' and (idx // 7) % 4 == 3}
+                'B0_derived': which == 'PC' and (idx // 7) % 4 == 3,
+                'retry_after_failure': (idx // 7) % 3 == 1}
         if case['B0_derived']:
             case['book_first'] = False      # the builder's book mode declares its own initial bill holding
         if which == 'PAIR':
@@ -277,6 +279,12 @@ class C09(object):
         mod.EquationSolver.MaxIterations = 5000
         mod.EquationSolver.ParameterErrorTolerance = 1e-10
         V0 = case['V0']
+        if case.get('retry_after_failure') and shared is None and which in ('SIM', 'SIMEX1'):
+            # quiet first periods (the economy starts in the stationary state of G[0]), then spending jumps a thousandfold
+            g_ = case['G'][0]
+            yd_ = g_ / p['th'] * (1.0 - p['th'])
+            case = dict(case, G=[g_] * 3 + [1000.0 * g_] * (T + 3), V0=(1.0 - p['a1']) * yd_ / p['a2'], YD0=yd_)
+            V0 = case['V0']
         cf, names = self.configure(b, mod, which, p, case['G'], case['r'], V0, case['YD0'], T,
                                    params_exogenous=bool(case.get('params_exogenous')), B0_zero=bool(case.get('B0_zero')),
                                    B0_derived=bool(case.get('B0_derived')))
@@ -288,11 +296,46 @@ class C09(object):
             rec.count('parameters_as_exogenous_series.cases')
         if case.get('book_first'):
             rec.count('book_exogenous_overwritten.cases')
-        try:
-            with contextlib.redirect_stdout(io.StringIO()):
-                mod.main()
-        except Exception as e:
-            return {'verdict': 'notjudged', 'shape': which + '|' + type(e).__name__, 'obs': {'err': repr(e)[:200]}}
+        retried = False
+        if case.get('retry_after_failure') and shared is None:
+            # the first attempt runs out of sweeps at a later period; the caller then raises the cap on the SAME solver
+            # object and solves again (no re-parse): the result must still be the model's
+            import re as _re
+            from sfc_models.equation_solver import ConvergenceError as _CE
+            caps = [10]
+            while caps[-1] < 3000:
+                caps.append(int(caps[-1] * 1.1) + 1)
+            for cap in caps:
+                mod.EquationSolver.MaxIterations = cap
+                try:
+                    with contextlib.redirect_stdout(io.StringIO()):
+                        if cap == 10:
+                            mod.main()
+                        else:
+                            mod.EquationSolver.SolveEquation()
+                    break           # solved without ever failing late
+                except _CE as e:
+                    m_ = _re.search(r'step (\d+)', str(e))
+                    if m_ and int(m_.group(1)) >= 2:
+                        retried = True
+                        break
+                except Exception as e:
+                    return {'verdict': 'notjudged', 'shape': which + '|' + type(e).__name__, 'obs': {'err': repr(e)[:200]}}
+            if retried:
+                mod.EquationSolver.MaxIterations = 5000
+                try:
+                    with contextlib.redirect_stdout(io.StringIO()):
+                        mod.EquationSolver.SolveEquation()
+                except Exception as e:
+                    return {'verdict': 'notjudged', 'shape': which + '|retry:' + type(e).__name__, 'obs': {'err': repr(e)[:200]}}
+                rec.count('solved_again_after_a_failure_at_a_later_period.cases')
+        if not retried:
+            mod.EquationSolver.MaxIterations = 5000
+            try:
+                with contextlib.redirect_stdout(io.StringIO()):
+                    mod.main() if not case.get('retry_after_failure') or shared is not None else mod.EquationSolver.SolveEquation()
+            except Exception as e:
+                return {'verdict': 'notjudged', 'shape': which + '|' + type(e).__name__, 'obs': {'err': repr(e)[:200]}}
         V = mod.EquationSolver.TimeSeries
         rec.count(which + '.judged')
         if not case['grid']:
